@@ -8,6 +8,8 @@ from __future__ import annotations
 
 import warnings
 
+import math
+
 import numpy as np
 from hypothesis import strategies as st
 
@@ -352,6 +354,18 @@ def judge(d):
                 elif dk == "filter":
                     dg = grp.filter(pl.col("w") > op["thr"])
                     dwant = {kk: [r for r in v if r.w > op["thr"]] for kk, v in want.items()}
+                elif dk == "sample":
+                    # an unseeded random subset per group: whatever was drawn, the derived group is that subset from then on
+                    dg = grp.sample(min(1 + op["pick"] % 2, min(len(v) for v in want.values())))
+                    it1 = {kk: sub.molecules.features["uid"].to_list() for kk, sub in dg}
+                    it2 = {kk: sub.molecules.features["uid"].to_list() for kk, sub in dg}
+                    if it1 != it2:
+                        out.append(viol("C03/derived-group-unstable", f"{tag}: two iterations over group.sample(n) yield different molecules: {it1} then {it2}"))
+                        return out
+                    if any(not set(u) <= {r.uid for r in want[kk]} for kk, u in it1.items()):
+                        out.append(viol("C03/group-sample", f"{tag}: group.sample drew molecules of another group: {it1}"))
+                        return out
+                    dwant = {kk: [byuid[u] for u in it1.get(kk, [])] for kk in want}
                 else:
                     dg = grp
                     dwant = want
@@ -386,6 +400,17 @@ def judge(d):
                         akeys = sorted(kk for kk, _ in al)
                         if akeys != nonempty:
                             out.append(viol("C03/group-align-groups", f"{tag}: derived group ({dk}).align returned groups {akeys}, expected {nonempty}"))
+                        else:
+                            for kk, sub in al:
+                                got_u = sub.molecules.features["uid"].to_list()
+                                if got_u != [r.uid for r in dwant[kk]]:
+                                    out.append(viol("C03/group-align-rows", f"{tag}: derived group ({dk}).align: group {kk} holds uids {got_u}, the group held {[r.uid for r in dwant[kk]]}"))
+                                    break
+                                # the aligned molecule stays within max_shifts of the molecule it came from
+                                for i, r in enumerate(dwant[kk]):
+                                    if np.linalg.norm(sub.molecules.pos[i] - np.asarray(r.pos, dtype=np.float64)) > math.sqrt(3.0) + 1e-3:
+                                        out.append(viol("C03/group-align-rows", f"{tag}: derived group ({dk}).align: group {kk} row {i} (uid {r.uid}) moved from {r.pos} to {sub.molecules.pos[i].tolist()}"))
+                                        break
                 # continue with one of the groups
                 pick = sorted(want)[op["pick"] % len(want)]
                 new = dict(items1)[pick]
@@ -473,7 +498,7 @@ def op_strategy(draw):
     elif name == "add_tomogram":
         op.update(pos=draw(st.lists(pos3, min_size=1, max_size=3)), explicit=draw(st.booleans()), dup_id=draw(st.sampled_from([0, 0, 0, 1, 2])))
     elif name == "groupby":
-        op.update(derive=draw(st.sampled_from(["head", "tail", "filter", "none"])), thr=float(draw(st.integers(0, 60))),
+        op.update(derive=draw(st.sampled_from(["head", "tail", "filter", "none", "sample", "sample"])), thr=float(draw(st.integers(0, 60))),
                   pick=draw(st.integers(0, 2)), galign=draw(st.booleans()))
     return op
 
